@@ -531,7 +531,7 @@ fn cv_stale_entries(e: &'static Engine, workers: usize, stale: &'static str, liv
 /// the condvar's mutex is poisoned while a party waits: the notifier panics holding the lock (after it has notified).
 /// wait / wait_timeout then return Err(PoisonError(guard)) - with the mutex re-acquired, as std does. The waiter recovers
 /// the guard and uses it while another party takes the (poisoned) lock too: never both inside.
-fn cv_poisoned(e: &'static Engine, workers: usize, waiter: char, timed: bool) {
+pub fn cv_poisoned(e: &'static Engine, workers: usize, waiter: char, timed: bool) {
     rt_init(workers);
     let p = Arc::new(Pair { m: Mutex::new(0), cv: Condvar::new() });
     e.begin();
